@@ -77,6 +77,12 @@ func (c *chunkedBodyWriter) Write(p []byte) (n int, err error) {
 	return len(p), nil
 }
 
+// WroteHeader reports whether the response head has been handed to the connection: from then on
+// the message can only be continued and finished by this writer.
+func (c *chunkedBodyWriter) WroteHeader() bool {
+	return c.wroteHeader
+}
+
 func (c *chunkedBodyWriter) Flush() error {
 	return c.w.Flush()
 }
